@@ -1,117 +1,2 @@
-(* GENERATED by gen/gen_consts.py from the current /repo sources -- do not edit *)
-From Coq Require Import ZArith List.
-Import ListNotations.
-Local Open Scope Z_scope.
-
-(* hdf/src/hdf.h *)
-Definition DFACC_READ : Z := 1.
-Definition DFACC_WRITE : Z := 2.
-Definition DFACC_CREATE : Z := 4.
-Definition DFACC_ALL : Z := 7.
-Definition DFACC_RDONLY : Z := 1.
-Definition DFACC_RDWR : Z := 3.
-Definition DFACC_CLOBBER : Z := 4.
-Definition DFACC_APPENDABLE : Z := 16.
-Definition DFACC_CURRENT : Z := 32.
-(* hdf/src/hfile_priv.h *)
-Definition INVALID_OFFSET : Z := (-1).
-Definition INVALID_LENGTH : Z := (-1).
-Definition DDLIST_DIRTY : Z := 1.
-Definition FILE_END_DIRTY : Z := 2.
-(* hdf/src/htags.h *)
-Definition DFTAG_VERSION : Z := 30.
-Definition DFTAG_VH : Z := 1962.
-Definition DFTAG_VS : Z := 1963.
-Definition DFTAG_VG : Z := 1965.
-(* hdf/src/hfile.c *)
-Definition LIBVER_MAJOR : Z := 4.
-Definition LIBVER_MINOR : Z := 3.
-Definition LIBVER_RELEASE : Z := 1.
-(* hdf/src/hfile.c: Hopen: (acc_mode) & 2 *)
-Definition hopen_stream_writable (acc_mode : Z) : Z := (Z.land acc_mode 2).
-(* hdf/src/hfile.c: Hopen: acc_mode | 1 *)
-Definition hopen_existing_access (acc_mode : Z) : Z := (Z.lor acc_mode 1).
-(* hdf/src/hfile.c: Hopen: new_file ? acc_mode | 1 : 7 *)
-Definition hopen_created_access (new_file : Z) (acc_mode : Z) : Z := (if Z.eqb new_file 0 then 7 else (Z.lor acc_mode 1)).
-(* hdf/src/hfile.c: Hstartaccess: (flags & 2) && !(file_rec->access & 2) *)
-Definition hstartaccess_denied (flags : Z) (faccess : Z) : Z := (if andb (negb (Z.eqb (Z.land flags 2) 0)) (negb (Z.eqb (if Z.eqb (Z.land faccess 2) 0 then 1 else 0) 0)) then 1 else 0).
-(* hdf/src/hfile.c: Hstartaccess: !(flags & 2) *)
-Definition hstartaccess_nocreate (flags : Z) : Z := (if Z.eqb (Z.land flags 2) 0 then 1 else 0).
-(* hdf/src/hfile.c: Hstartaccess: !(flags & 2) *)
-Definition hstartaccess_special_read (flags : Z) : Z := (if Z.eqb (Z.land flags 2) 0 then 1 else 0).
-(* hdf/src/hfile.c: Hstartaccess: flags & 0x10 *)
-Definition hstartaccess_appendable (flags : Z) : Z := (Z.land flags 16).
-(* hdf/src/hfile.c: Hstartwrite: 3 *)
-Definition hstartwrite_flags  : Z := 3.
-(* hdf/src/hfile.c: Hwrite: !(access_rec->access & 2) *)
-Definition hwrite_denied (aaccess : Z) : Z := (if Z.eqb (Z.land aaccess 2) 0 then 1 else 0).
-(* hdf/src/hfile.c: Htrunc: !(access_rec->access & 2) *)
-Definition htrunc_denied (aaccess : Z) : Z := (if Z.eqb (Z.land aaccess 2) 0 then 1 else 0).
-(* hdf/src/hfile.c: Hsetlength: !(access_rec->access & 2) *)
-Definition hsetlength_denied (aaccess : Z) : Z := (if Z.eqb (Z.land aaccess 2) 0 then 1 else 0).
-(* hdf/src/hfile.c: Hclose: (file_rec->refcount > 0) && (file_rec->version.modified == 1) *)
-Definition hclose_updates_version (refcount : Z) (modified : Z) : Z := (if andb (negb (Z.eqb (if Z.ltb 0 refcount then 1 else 0) 0)) (negb (Z.eqb (if Z.eqb modified 1 then 1 else 0) 0)) then 1 else 0).
-(* hdf/src/hfile.c: HIsync: file_rec->cache && file_rec->dirty *)
-Definition hisync_flushes (cache : Z) (dirty : Z) : Z := (if andb (negb (Z.eqb cache 0)) (negb (Z.eqb dirty 0)) then 1 else 0).
-(* hdf/src/hfile.c: HIcheckfileversion: lmajorv > fmajorv || (lmajorv == fmajorv && lminorv > fminorv) || (lmajorv == fmajorv && lminorv == fminorv && lrelease > frelease) *)
-Definition version_is_newer (lmajorv : Z) (lminorv : Z) (lrelease : Z) (fmajorv : Z) (fminorv : Z) (frelease : Z) : Z := (if orb (negb (Z.eqb (if orb (negb (Z.eqb (if Z.ltb fmajorv lmajorv then 1 else 0) 0)) (negb (Z.eqb (if andb (negb (Z.eqb (if Z.eqb lmajorv fmajorv then 1 else 0) 0)) (negb (Z.eqb (if Z.ltb fminorv lminorv then 1 else 0) 0)) then 1 else 0) 0)) then 1 else 0) 0)) (negb (Z.eqb (if andb (negb (Z.eqb (if andb (negb (Z.eqb (if Z.eqb lmajorv fmajorv then 1 else 0) 0)) (negb (Z.eqb (if Z.eqb lminorv fminorv then 1 else 0) 0)) then 1 else 0) 0)) (negb (Z.eqb (if Z.ltb frelease lrelease then 1 else 0) 0)) then 1 else 0) 0)) then 1 else 0).
-(* hdf/src/hblocks.c: HLcreate: !(file_rec->access & 2) *)
-Definition hlcreate_denied (faccess : Z) : Z := (if Z.eqb (Z.land faccess 2) 0 then 1 else 0).
-(* hdf/src/hblocks.c: HLconvert: !(file_rec->access & 2) *)
-Definition hlconvert_denied (faccess : Z) : Z := (if Z.eqb (Z.land faccess 2) 0 then 1 else 0).
-(* hdf/src/hextelt.c: HXcreate: !(file_rec->access & 2) *)
-Definition hxcreate_denied (faccess : Z) : Z := (if Z.eqb (Z.land faccess 2) 0 then 1 else 0).
-(* hdf/src/hcomp.c: HCcreate: !(file_rec->access & 2) *)
-Definition hccreate_denied (faccess : Z) : Z := (if Z.eqb (Z.land faccess 2) 0 then 1 else 0).
-(* hdf/src/hchunks.c: HMCcreate: !(file_rec->access & 2) *)
-Definition hmccreate_denied (faccess : Z) : Z := (if Z.eqb (Z.land faccess 2) 0 then 1 else 0).
-(* hdf/src/hchunks.c: HMCwriteChunk: !(file_rec->access & 2) *)
-Definition hmcwritechunk_denied (faccess : Z) : Z := (if Z.eqb (Z.land faccess 2) 0 then 1 else 0).
-(* hdf/src/hfiledd.c: Hdupdd: !(file_rec->access & 2) *)
-Definition hdupdd_denied (faccess : Z) : Z := (if Z.eqb (Z.land faccess 2) 0 then 1 else 0).
-(* hdf/src/hfiledd.c: Hdeldd: !(file_rec->access & 2) *)
-Definition hdeldd_denied (faccess : Z) : Z := (if Z.eqb (Z.land faccess 2) 0 then 1 else 0).
-(* hdf/src/hfiledd.c: HDreuse_tagref: !(file_rec->access & 2) *)
-Definition hdreuse_denied (faccess : Z) : Z := (if Z.eqb (Z.land faccess 2) 0 then 1 else 0).
-(* hdf/src/hfiledd.c: HTIupdate_dd: file_rec->cache *)
-Definition htiupdate_deferred (cache : Z) : Z := cache.
-(* hdf/src/hblocks.c: HLIstaccess: !(file_rec->access & acc_mode) *)
-Definition hlistaccess_denied (faccess : Z) (acc_mode : Z) : Z := (if Z.eqb (Z.land faccess acc_mode) 0 then 1 else 0).
-(* hdf/src/hblocks.c: HLIstaccess: (uint32)(acc_mode | 1) *)
-Definition hlistaccess_access (acc_mode : Z) : Z := (Z.modulo (Z.lor acc_mode 1) 4294967296).
-(* hdf/src/hextelt.c: HXIstaccess: !(file_rec->access & acc_mode) *)
-Definition hxistaccess_denied (faccess : Z) (acc_mode : Z) : Z := (if Z.eqb (Z.land faccess acc_mode) 0 then 1 else 0).
-(* hdf/src/hextelt.c: HXIstaccess: (uint32)(acc_mode | 1) *)
-Definition hxistaccess_access (acc_mode : Z) : Z := (Z.modulo (Z.lor acc_mode 1) 4294967296).
-(* hdf/src/hcomp.c: HCIstaccess: !(file_rec->access & acc_mode) *)
-Definition hcistaccess_denied (faccess : Z) (acc_mode : Z) : Z := (if Z.eqb (Z.land faccess acc_mode) 0 then 1 else 0).
-(* hdf/src/hcomp.c: HCIstaccess: (uint32)(acc_mode | 1) *)
-Definition hcistaccess_access (acc_mode : Z) : Z := (Z.modulo (Z.lor acc_mode 1) 4294967296).
-(* hdf/src/hchunks.c: HMCIstaccess: !(file_rec->access & acc_mode) *)
-Definition hmcistaccess_denied (faccess : Z) (acc_mode : Z) : Z := (if Z.eqb (Z.land faccess acc_mode) 0 then 1 else 0).
-(* hdf/src/hchunks.c: HMCIstaccess: (uint32)(acc_mode | 1) *)
-Definition hmcistaccess_access (acc_mode : Z) : Z := (Z.modulo (Z.lor acc_mode 1) 4294967296).
-(* hdf/src/hblocks.c: HLPstread: 1 *)
-Definition hl_stread_mode  : Z := 1.
-(* hdf/src/hblocks.c: HLPstwrite: 2 *)
-Definition hl_stwrite_mode  : Z := 2.
-(* hdf/src/vgp.c: Vattach: acc_mode == 'w' && !(file_rec->access & 2) *)
-Definition vattach_denied (acc_mode : Z) (faccess : Z) : Z := (if andb (negb (Z.eqb (if Z.eqb acc_mode 119 then 1 else 0) 0)) (negb (Z.eqb (if Z.eqb (Z.land faccess 2) 0 then 1 else 0) 0)) then 1 else 0).
-(* hdf/src/vgp.c: Vdelete: !(file_rec->access & 2) *)
-Definition vdelete_denied (faccess : Z) : Z := (if Z.eqb (Z.land faccess 2) 0 then 1 else 0).
-(* hdf/src/vgp.c: Vaddtagref: vg->access != 'w' *)
-Definition vaddtagref_denied (vaccess : Z) : Z := (if negb (Z.eqb vaccess 119) then 1 else 0).
-(* hdf/src/vgp.c: Vdeletetagref: vg->access != 'w' *)
-Definition vdeletetagref_denied (vaccess : Z) : Z := (if negb (Z.eqb vaccess 119) then 1 else 0).
-(* hdf/src/vgp.c: Vsetname: vg->access != 'w' *)
-Definition vsetname_denied (vaccess : Z) : Z := (if negb (Z.eqb vaccess 119) then 1 else 0).
-(* hdf/src/vio.c: VSattach: !(file_rec->access & 2) *)
-Definition vsattach_new_denied (faccess : Z) : Z := (if Z.eqb (Z.land faccess 2) 0 then 1 else 0).
-(* hdf/src/vio.c: VSattach: 0 *)
-Definition vsattach_w_uses_hstartwrite  : Z := 0.
-(* hdf/src/vio.c: VSdelete: !(file_rec->access & 2) *)
-Definition vsdelete_denied (faccess : Z) : Z := (if Z.eqb (Z.land faccess 2) 0 then 1 else 0).
-(* hdf/src/vrw.c: VSwrite: vs->access != 'w' *)
-Definition vswrite_denied (vaccess : Z) : Z := (if negb (Z.eqb vaccess 119) then 1 else 0).
-(* hdf/src/vg.c: VSsetname: vs->access == 'r' *)
-Definition vssetname_denied (vaccess : Z) : Z := (if Z.eqb vaccess 114 then 1 else 0).
+(* GENERATED: translator failed: hdf/src/hfile.c:Hclose: anchor 'if \\((\\(file_rec->refcount > 0\\) && \\(file_rec->version\\.modified == 1\\))\\)\\s*HIupdate_version' matched 0 times (need exactly 1) *)
+Definition translator_failed : True := I I.
